@@ -288,7 +288,7 @@ def from_residual(I, w, ci, args):
 
 def convert_from(I, w, ci, args):
     # T::from(x): resolved local impl is inlined by the default path; identity when types agree
-    if ci.resolved and ci.resolved in I.by_path:
+    if ci.resolved and F.raw_key(ci.resolved) in I.by_path:
         return None
     if ci.arg_tys and ci.dest_ty and ci.arg_tys[0].get('s') == ci.dest_ty.get('s'):
         return [(w, args[0])]
@@ -360,7 +360,7 @@ def str_eq(I, w, ci, args):
 
 def default_default(I, w, ci, args):
     # resolved local Default impls are inlined; integer/array defaults are zero
-    if ci.resolved and ci.resolved in I.by_path:
+    if ci.resolved and F.raw_key(ci.resolved) in I.by_path:
         return None
     ty = ci.dest_ty or {}
     if ty.get('k') == 'int':
@@ -445,13 +445,13 @@ MODELS = {
     'core::result::Result::ok': result_ok,
     'core::result::Result::is_ok': result_is_ok,
     'core::result::Result::is_err': result_is_err,
-    'core::ops::Try::branch': try_branch,
-    'core::ops::FromResidual::from_residual': from_residual,
+    'core::ops::try_trait::Try::branch': try_branch,
+    'core::ops::try_trait::FromResidual::from_residual': from_residual,
     'core::convert::From::from': convert_from,
     'core::convert::Into::into': convert_from,
-    'core::ops::FnOnce::call_once': fn_call,
-    'core::ops::FnMut::call_mut': fn_call,
-    'core::ops::Fn::call': fn_call,
+    'core::ops::function::FnOnce::call_once': fn_call,
+    'core::ops::function::FnMut::call_mut': fn_call,
+    'core::ops::function::Fn::call': fn_call,
     'core::clone::Clone::clone': None,   # set below (needs resolved check)
     'core::str::len': str_len,
     'core::slice::len': str_len,
@@ -459,14 +459,14 @@ MODELS = {
     'core::slice::is_empty': str_is_empty,
     'core::str::as_bytes': identity,
     'core::str::as_bytes_mut': identity,
-    'core::str::from_utf8_unchecked': identity,
-    'core::str::from_utf8_unchecked_mut': identity,
+    'core::str::converts::from_utf8_unchecked': identity,
+    'core::str::converts::from_utf8_unchecked_mut': identity,
     'core::cmp::PartialEq::eq': None,
     'core::default::Default::default': default_default,
-    'core::ops::RangeInclusive::new': range_inclusive_new,
-    'core::ops::RangeInclusive::contains': range_inclusive_contains,
-    'core::ops::Index::index': slice_index,
-    'core::ops::IndexMut::index_mut': slice_index,
+    'core::ops::range::RangeInclusive::new': range_inclusive_new,
+    'core::ops::range::RangeInclusive::contains': range_inclusive_contains,
+    'core::ops::index::Index::index': slice_index,
+    'core::ops::index::IndexMut::index_mut': slice_index,
 }
 
 
@@ -476,10 +476,15 @@ def _clone(I, w, ci, args):
 
 
 def _eq(I, w, ci, args):
-    if ci.resolved and ci.resolved in I.by_path:
+    if ci.resolved and F.raw_key(ci.resolved) in I.by_path:
         return None
     return str_eq(I, w, ci, args)
 
 
+for _k in list(MODELS):
+    if _k.startswith('core::str::') and _k.count('::') == 2:
+        MODELS['core::str::<impl str>::' + _k.rsplit('::', 1)[1]] = MODELS[_k]
+    if _k.startswith('core::slice::') and _k.count('::') == 2:
+        MODELS['core::slice::<impl [T]>::' + _k.rsplit('::', 1)[1]] = MODELS[_k]
 MODELS['core::clone::Clone::clone'] = _clone
 MODELS['core::cmp::PartialEq::eq'] = _eq
